@@ -51,9 +51,12 @@ PointRef(ver, k, R) ==
                  ELSE [found |-> FALSE, rev |-> 0, val |-> "-"]
 
 \* index record agrees with the newest version
+\* (a tombstoned index may outlive its versions: a compaction whose compare-and-delete of the index
+\*  lost still deletes the versions; the next compaction removes the index)
 IndexAgreesK(idx, vs) ==
-    idx # NoIdx => /\ Latest(vs).rev = idx.rev
-                   /\ (Latest(vs).val = TOMB) = idx.del
+    idx # NoIdx => LET l == Latest(vs) IN
+                   IF idx.del THEN l = NoVer \/ (l.rev = idx.rev /\ l.val = TOMB)
+                              ELSE l.rev = idx.rev /\ l.val # TOMB
 
 \* every key stays writable with normal semantics: the index of a live key names its newest version,
 \* a dead key has no index or a tombstoned one (over which a create may compare-and-swap)
